@@ -973,7 +973,7 @@ func TestVerifC02(t *testing.T) {
 	p := genProfile{maxSeries: 3, maxTimes: 5, maxBatches: 6, maxRows: 12, versions: []int64{1, 1, 2, 2, 3, 5, 10, 30, 50, -1, 0, math.MaxInt64, math.MinInt64},
 		maintenance: true}
 	verifkit.Run(t, verifkit.Spec[mCase]{
-		Property: "C02", Unit: "measure_l1",
+		Property: "C02", Unit: "measure_l1", CrashReplay: true,
 		Rule: "histories over a tiny key space (<=3 series x <=5 timestamps) with 1..6 write batches of 1..12 rows (versions from {1,2,3,5,10,30,50,-1,0,Min,Max} " +
 			"incl. ties; every written row carries a unique payload), interleaved with flush / merge-memory-parts / merge of an arbitrary subset of file parts / " +
 			"reopen / query steps against the real tsTable; oracle: after every step and for every query exactly one row per (series,timestamp) whose version is the " +
@@ -1008,7 +1008,7 @@ func TestVerifC03Measure(t *testing.T) {
 	p := genProfile{maxSeries: 6, maxTimes: 12, maxBatches: 7, maxRows: 30, versions: []int64{1, 2, 3, 7}, richSchema: true, variants: true,
 		wide: true, bigBatch: true, maintenance: true}
 	verifkit.Run(t, verifkit.Spec[mCase]{
-		Property: "C03", Unit: "measure_l1",
+		Property: "C03", Unit: "measure_l1", CrashReplay: true,
 		Rule: "histories with a generated schema (1-3 tag families, all tag/field types, optionally a second schema variant in which one tag changes type " +
 			"between batches), 1..7 write batches (occasionally one series with > 8192 points, or ~2000 series in one batch to force several primary blocks), " +
 			"interleaved with flush / merge-memory / merge(any subset of file parts, fan-in 2-5) / reopen / query(range, series subset, projection, order); " +
@@ -1047,7 +1047,7 @@ func TestVerifC01Measure(t *testing.T) {
 	p := genProfile{maxSeries: 8, maxTimes: 400, maxBatches: 4, maxRows: 60, versions: []int64{1, 2}, richSchema: true, bigBatch: true, hostileValues: true,
 		maintenance: true, dense: true}
 	verifkit.Run(t, verifkit.Spec[mCase]{
-		Property: "C01", Unit: "measure_l1",
+		Property: "C01", Unit: "measure_l1", CrashReplay: true,
 		Rule: "measure write batches through the engine's own TagValue/FieldValue encoders with a generated schema (1-3 tag families; int/str/binary/int-array/" +
 			"str-array tags; int/float/str/binary fields) and hostile values (int64/float64 extremes and every float class, strings with delimiter/escape bytes, empty " +
 			"vs null, arrays, > 8192 rows in a series), then covering queries (full and sub-ranges, projections, three orders) before and after flush/merge/reopen; " +
@@ -1083,7 +1083,7 @@ func TestVerifC01Measure(t *testing.T) {
 func TestVerifC09Measure(t *testing.T) {
 	p := genProfile{maxSeries: 5, maxTimes: 40, maxBatches: 6, maxRows: 40, versions: []int64{1, 2, 3}, maintenance: true}
 	verifkit.Run(t, verifkit.Spec[mCase]{
-		Property: "C09", Unit: "measure_l1",
+		Property: "C09", Unit: "measure_l1", CrashReplay: true,
 		Rule: "measure histories (<=5 series x <=40 timestamps, 1..6 batches, flush/merge/reopen in between) queried with series subsets in arbitrary " +
 			"requested order, sub-ranges and the three orderings (by requested series order then time; by time ascending; by time descending) over rows " +
 			"spread across several parts; oracle: result == model and the documented order holds (strictly increasing/decreasing timestamps per series chunk, " +
@@ -1188,7 +1188,7 @@ func genSplitCase(t *rapid.T, p genProfile, extra []string) mCase {
 func TestVerifC05Measure(t *testing.T) {
 	p := genProfile{maxSeries: 4, maxTimes: 10, maxBatches: 6, maxRows: 15, versions: []int64{1, 2, 3}}
 	verifkit.Run(t, verifkit.Spec[mCase]{
-		Property: "C05", Unit: "measure_split",
+		Property: "C05", Unit: "measure_split", CrashReplay: true,
 		Rule: "measure histories whose coarse steps are interleaved with SPLIT queries: qopen pins the current snapshot and builds the block cursors, qdrain " +
 			"(any number of steps later) loads the blocks and merges them; between the two the history writes, flushes, merges memory parts and merges arbitrary " +
 			"subsets of file parts (publication + deletion of replaced parts) - up to 3 queries are open at once; oracle: a drained query equals the model AS OF " +
@@ -1219,7 +1219,7 @@ func TestVerifC05Measure(t *testing.T) {
 func TestVerifC17MeasureSegments(t *testing.T) {
 	p := genProfile{maxSeries: 4, maxTimes: 10, maxBatches: 6, maxRows: 15, versions: []int64{1, 2, 3}, multiSeg: true}
 	verifkit.Run(t, verifkit.Spec[mCase]{
-		Property: "C17", Unit: "measure_wqueue_segments",
+		Property: "C17", Unit: "measure_wqueue_segments", CrashReplay: true,
 		Rule: "the coordinator's write queue table of the measure engine: memory parts of several time segments pile up in one table (1..2 per segment and round), " +
 			"merge rounds of memory parts (the step that produces the parts shipped to the data nodes), flushes, file merges and queries in between; oracle: a merge " +
 			"round merges only memory parts of ONE segment with each other - a memory part that is alone in its segment stays, every group of >= 2 becomes exactly " +
@@ -1246,7 +1246,7 @@ func TestVerifC17MeasureSegments(t *testing.T) {
 func TestVerifC19Measure(t *testing.T) {
 	p := genProfile{maxSeries: 4, maxTimes: 10, maxBatches: 6, maxRows: 15, versions: []int64{1, 2, 3}}
 	verifkit.Run(t, verifkit.Spec[mCase]{
-		Property: "C19", Unit: "measure_snapshot",
+		Property: "C19", Unit: "measure_snapshot", CrashReplay: true,
 		Rule: "measure shard histories (writes, flushes, memory-part merges, merges of arbitrary file-part subsets) with TakeFileSnapshot requests at generated " +
 			"positions - in particular while memory parts exist and right after merges; oracle: the snapshot directory holds exactly one manifest, every part it " +
 			"lists is present and passes validatePartMetadata, no unlisted part is present, the directory opens with the real open path and a query on the " +
@@ -1312,7 +1312,7 @@ func TestVerifC19Measure(t *testing.T) {
 func TestVerifC08MeasurePruning(t *testing.T) {
 	sc := mSchema{Fams: []mFamSpec{{Name: "tf", Tags: []mTagSpec{{Name: "a", Type: "str"}}}}, Fields: []mFieldSpec{{Name: "v", Type: "int"}}}
 	verifkit.Run(t, verifkit.Spec[mCase]{
-		Property: "C08", Unit: "measure_pruning",
+		Property: "C08", Unit: "measure_pruning", CrashReplay: true,
 		Rule: "a measure part with several primary blocks (2700-3600 one-row series) plus one series of > 8192 points placed at a generated position among them " +
 			"(so that its blocks may straddle a primary-block boundary), optionally written in two batches and merged; queries select that series alone, " +
 			"small series subsets around it and narrow time windows; oracle: every query equals the model (series-, primary-block-, block- and part-level " +
